@@ -485,6 +485,72 @@ def rule_cachekey(ctx) -> None:
                   "(e.g. per-slice) cap, which then reports more pops/layers than its budget allows")
 
 
+def rule_tallies_accumulate(ctx) -> None:
+    """"counters that match the work done": a tally that is folded into a reported total after a loop (`total += tally`) must
+    itself be accumulated inside the loop.  A plain assignment there (`tally = ev`, `tally = 1`) keeps the last iteration's
+    value only, so the counter under-reports whenever more than one iteration contributes."""
+    fn = ctx.func(INNER)
+    pm = ctx.prog.parents(fn.node)
+
+    def loop_of(x):
+        cur = x
+        while id(cur) in pm:
+            cur = pm[id(cur)]
+            if isinstance(cur, (ast.For, ast.While)):
+                return cur
+            if isinstance(cur, (ast.FunctionDef, ast.AsyncFunctionDef)):
+                return None
+        return None
+
+    def folded_name(v):
+        if isinstance(v, ast.Name):
+            return v.id
+        if isinstance(v, ast.Subscript) and isinstance(v.value, ast.Call) and dotted(v.value.func) == "locals" and const_str(v.slice):
+            return const_str(v.slice)  # total += locals()['tally']
+        return None
+
+    folds = {}
+    for x in walk_no_defs(fn.node):
+        if isinstance(x, ast.AugAssign) and isinstance(x.op, ast.Add) and isinstance(x.target, ast.Name) and folded_name(x.value):
+            folds.setdefault(folded_name(x.value), []).append(x)
+    n_t = 0
+    rd = ctx.rd(fn)
+    cfg = ctx.cfg(fn)
+    for name in sorted(folds):
+        bad = []
+        relevant = False
+        for f in folds[name]:
+            at = (cfg.node_containing(f) or [None])[0]
+            if at is None:
+                continue
+            for d in rd.reaching(name, at):
+                if d.kind not in ("assign", "aug") or d.node.ast is None:
+                    continue
+                lp = loop_of(d.node.ast)
+                if lp is None or _inside(pm, f, lp):
+                    continue  # produced outside a loop, or consumed in the iteration that produced it
+                relevant = True
+                if d.kind == "assign" and not (isinstance(d.value, ast.Constant) and d.value.value in (0, 0.0, None, False)):
+                    bad.append(d.node.ast)
+        if not relevant:
+            continue
+        n_t += 1
+        ctx.check(not bad, "C12.PAIR", f"{fn.qual}/tally-accumulates:{n_t}", fn.loc(bad[0]) if bad else fn.loc(folds[name][0]),
+                  "the per-loop tally is accumulated (+=) before it is folded into the reported total",
+                  f"`{src(bad[0])[:40] if bad else ''}` assigns the tally inside the loop and it is folded into a reported total after the loop: only the last iteration counts, so the counter "
+                  "does not match the work done when several iterations contribute")
+    ctx.floor("C12.PAIR", "loop tallies folded into reported totals after their loop", n_t, 2)
+
+
+def _inside(pm, node, loop) -> bool:
+    cur = node
+    while id(cur) in pm:
+        cur = pm[id(cur)]
+        if cur is loop:
+            return True
+    return False
+
+
 def rule_zero_caps(ctx) -> None:
     from ..zero import zero_cap_rule
     zero_cap_rule(ctx, "C12.LOOP", ["clematis.engine.stages.t1:t1_propagate._t1_one_graph"], 1)
@@ -492,6 +558,7 @@ def rule_zero_caps(ctx) -> None:
 
 def run(ctx) -> None:
     rule_zero_caps(ctx)
+    rule_tallies_accumulate(ctx)
     rule_ro(ctx)
     rule_loop(ctx)
     rule_pair(ctx)
